@@ -11,6 +11,8 @@
 (*   full       every series has length horizon + 1                                    *)
 (*   same_prev  series identical to those after the previous solve of this solver      *)
 (*   same_eqs   Model.FinalEquations text identical to the reference                   *)
+(*   same_step  step-trace group identical to the reference traced at the same period  *)
+(*   same_init  initial steady-state group identical to the reference                  *)
 (* The spec decides when they must hold.                                               *)
 (*   property:<clause>  a sentence of C17 is false on the observed values              *)
 (*   drift:<clause>     the code did something the spec action does not predict        *)
@@ -47,6 +49,7 @@ JudgeAux(e) ==
 JudgeMain(e) ==
     IF result'[e.x] = Expected(e.x)
     THEN IF ~e.ok \/ ~e.same_keys \/ ~e.same_vals THEN Prop("C17_HistoryIndependent")
+         ELSE IF stepInfo'[e.x].fresh /\ ~e.same_step THEN Prop("C17_HistoryIndependent")
          ELSE IF ~e.same_eqs THEN Drift("final_equations")
          ELSE JudgeProcess(e)
     ELSE Ok
@@ -57,7 +60,7 @@ JudgeSolve(e, again) ==
     LET s == e.x
         pred == series'[s]
         hyp == AsFound_VarListCached \/ AsFound_TraceBreaksFunctions \/ Hyp_SharedFunctions \/ Hyp_RhsCachedByName
-               \/ Hyp_SteadyOneShot \/ Hyp_SettingsSurviveReparse
+               \/ Hyp_SteadyOneShot \/ Hyp_SettingsSurviveReparse \/ Hyp_TraceNeedsStepLog
     IN IF pred.ok /\ pred.full /\ pred.keys = SeriesKeys(block'[s]) /\ pred.body = pred.own /\ pred.eqs = block'[s]
           /\ pred.ss = pred.want /\ pred.hz = BlockInfo[block'[s]].horizon /\ pred.tol = BlockInfo[block'[s]].tol
        THEN IF ~e.same_keys /\ parses'[s] > 1 THEN Prop("C17_ReparseClean")
@@ -65,6 +68,8 @@ JudgeSolve(e, again) ==
             ELSE IF ~e.full /\ parses'[s] > 1 THEN Prop("C17_ReparseClean")
             ELSE IF again /\ ~e.same_prev THEN Prop("C17_ResolveIdempotent")
             ELSE IF ~e.same_keys \/ ~e.full \/ ~e.same_vals THEN Prop("C17_HistoryIndependent")
+            ELSE IF stepInfo'[s].fresh /\ ~e.same_step THEN Prop("C17_HistoryIndependent")
+            ELSE IF pred.ss /\ ~e.same_init THEN Prop("C17_HistoryIndependent")
             ELSE IF SeqToSet(e.varlist) # varList'[s] THEN Drift("variable_list")
             ELSE IF e.nk # nK'[s] THEN Drift("exogenous_k_entries")
             ELSE IF e.steady # steady'[s] THEN Drift("steady_option")
@@ -100,6 +105,7 @@ Reset ==
     /\ nK' = [s \in Solvers |-> 0]
     /\ parses' = [s \in Solvers |-> 0]
     /\ traceStep' = [x \in Holders |-> 0]
+    /\ stepInfo' = [x \in Holders |-> NoStepInfo]
     /\ hist' = << >>
 
 TraceNext ==
@@ -109,7 +115,7 @@ TraceNext ==
        \/ /\ e.ev = "Begin"
           /\ nextId' = e.id1
           /\ logs' = [n \in LogNames |-> e.logs[n]]
-          /\ UNCHANGED << mvars, svars, traceStep, hist >>
+          /\ UNCHANGED << mvars, svars, traceStep, stepInfo, hist >>
           /\ verdict' = verdict
        \/ /\ e.ev = "NewModel"
           /\ NewModel(e.x)
